@@ -7,6 +7,7 @@ import NurbsVerif.Lemmas.VolRefineObj
 import NurbsVerif.Lemmas.InsertObjExamples
 import NurbsVerif.Lemmas.A54Helper
 import NurbsVerif.Lemmas.A54Kv2
+import NurbsVerif.Lemmas.KnotRowsRefineVol
 
 /-!
 # C05  Knot refinement never changes the shape
@@ -573,5 +574,87 @@ example : refineA54 2 ([0,0,0,1/2,1,1,1] : List ℚ) [[0,0],[1,2],[2,0],[3,1]] [
       by intro pt hpt; simp at hpt; rcases hpt with h | h | h | h <;> simp [h]⟩
     (by simp) (by decide +kernel) (by decide +kernel) (by norm_num) (by unfold SepBy; decide +kernel)
     (by decide +kernel) (by decide +kernel) (by decide +kernel)
+
+/-! ## (R) The LIST-OF-ROWS branch of `helpers.knot_refinement` (A5.4 on rows) as coded
+
+For a volume `operations.refine_knotvector` gathers one ROW per control-point index of the direction (a
+whole layer of the net) and calls `helpers.knot_refinement` once; in the `else` branch of
+`isinstance(ctrlpts[0][0], float)` every blend of A5.4 becomes `for idx2 in range(len(ctrlpts[0])):
+new_ctrlpts[idx-1][idx2] = …`.  `refineA54Rows` transcribes the loops for rows, `knotRefinementRows` is the
+whole helper call, `refineVolRows` one direction of the operation (gather `volRows`, A5.4 on the rows,
+scatter `volUnrows`); they are run against the real helper / operation by the correspondence check
+(`rowsref`, `rowsrefh`, `rowsvol … F`). -/
+
+/-- **Every iso-curve of A5.4 on rows is A5.4 of that iso-curve, and the knot vector is the same** – for
+    every column index inside the rows (`c < len(ctrlpts[0])`), every list `X`: no other hypothesis. -/
+theorem refineA54Rows_isocurve (c p : ℕ) (U : List K) (R : List (List (List K))) (X : List K) (tol : K)
+    (hc : c < (R.headD []).length) :
+    (refineA54Rows p U R X tol).1 = (refineA54 p U (isoCol c R) X tol).1 ∧
+    isoCol c (refineA54Rows p U R X tol).2 = (refineA54 p U (isoCol c R) X tol).2 :=
+  Rows.isoCol_refineA54Rows c p U R X tol hc
+
+/-- the whole helper call on rows, iso-curve by iso-curve: the same knot vector and the control points
+    of `knotRefinementA54` on that iso-curve (including the "Cannot refine" case) -/
+theorem knotRefinementRows_isocurve (c p : ℕ) (U : List K) (R : List (List (List K))) (kl : Option (List K))
+    (add : List K) (density : ℕ) (tol : K) (hc : c < (R.headD []).length) :
+    (knotRefinementRows p U R kl add density tol).map (fun x => (x.1, isoCol c x.2))
+      = knotRefinementA54 p U (isoCol c R) kl add density tol :=
+  Rows.isoCol_knotRefinementRows c p U R kl add density tol hc
+
+/-- **One direction of `operations.refine_knotvector` on a volume, computed through the list of rows with
+    A5.4 AS CODED, is exactly the specification-level model `refineDir`** (fold of single insertions per
+    iso-curve) – so `refineDir_preserves_volume` / `refineKnotvector_preserves_volume` are statements about
+    what the rows branch computes.  Hypotheses: well-formed volume with points of dimension `d > 0`, the
+    direction's knot vector clamped at both ends with no value more than `p + 1` times, tolerance
+    separation of the old knots and the bisection knots (`DirHyp`). -/
+theorem refineVolRows_is_refineDir (d : ℕ) (S : Shape K) (hS : VolWF d S) (hd : 0 < d) (density : ℕ) (tol : K)
+    (h0 : 0 ≤ tol) (dir : ℕ) (hdir : dir < 3) (hyp : DirHyp S dir density tol)
+    (hclamp : fnOf (S.kv dir) 0 = fnOf (S.kv dir) (S.deg dir))
+    (hmult : ∀ y ∈ S.kv dir, (S.kv dir).count y ≤ S.deg dir + 1) :
+    refineVolRows S dir density tol = refineDir S dir density tol :=
+  Rows.refineVolRows_eq d S hS hd density tol h0 dir hdir hyp hclamp hmult
+
+/-- **Volumes, as the code computes the refinement**: the volume returned by gather / A5.4 on rows /
+    scatter is well formed, has `|X|` more control points in the refined direction, and evaluates at every
+    parameter triple of the domain, in every coordinate, to the point of the original volume. -/
+theorem refineVolRows_preserves_volume (d : ℕ) (S : Shape K) (hS : VolWF d S) (hd : 0 < d) (dir : ℕ) (hdir : dir < 3)
+    (density : ℕ) (tol : K) (h0 : 0 ≤ tol)
+    (hend : ∀ i, S.size dir ≤ i → fnOf (S.kv dir) i = fnOf (S.kv dir) (S.size dir))
+    (hsep : SepBy tol (S.kv dir ++ refineKnots (S.deg dir) (S.kv dir) density))
+    (hclamp : fnOf (S.kv dir) 0 = fnOf (S.kv dir) (S.deg dir))
+    (hmult : ∀ y ∈ S.kv dir, (S.kv dir).count y ≤ S.deg dir + 1)
+    (S' : Shape K) (h : refineVolRows S dir density tol = some S') :
+    VolWF d S' ∧ S'.degs = S.degs ∧
+    S'.size dir = S.size dir + (refineX (S.deg dir) (S.kv dir) density tol).length ∧
+    ∀ (u v w : K), fnOf (S.kv 0) (S.deg 0) ≤ u → u ≤ fnOf (S.kv 0) (S.size 0) →
+      fnOf (S.kv 1) (S.deg 1) ≤ v → v ≤ fnOf (S.kv 1) (S.size 1) →
+      fnOf (S.kv 2) (S.deg 2) ≤ w → w ≤ fnOf (S.kv 2) (S.size 2) → ∀ j,
+      (volumePoint (S'.deg 0) (S'.deg 1) (S'.deg 2) (fnOf (S'.kv 0)) (fnOf (S'.kv 1)) (fnOf (S'.kv 2))
+          (S'.size 0) (S'.size 1) (S'.size 2) S'.net u v w).getD j 0
+        = (volumePoint (S.deg 0) (S.deg 1) (S.deg 2) (fnOf (S.kv 0)) (fnOf (S.kv 1)) (fnOf (S.kv 2))
+          (S.size 0) (S.size 1) (S.size 2) S.net u v w).getD j 0 :=
+  let r := refineDir_preserves_volume d S hS dir hdir density tol h0 hend hsep S'
+    (by rw [← Rows.refineVolRows_eq d S hS hd density tol h0 dir hdir ⟨hend, hsep⟩ hclamp hmult]; exact h)
+  ⟨r.1, r.2.1, r.2.2.2.1, r.2.2.2.2.2⟩
+
+/-! ### non-vacuity -/
+
+/-- A5.4 as coded on two quadratic iso-curves at once (rows of two 1-D points) -/
+example : refineA54Rows 2 ([0,0,0,1,1,1] : List ℚ) [[[0],[10]], [[2],[12]], [[0],[16]]] [1/2, 1/2] (1/10000000)
+    = ([0,0,0,1/2,1/2,1,1,1], [[[0],[10]], [[1],[11]], [[1],[25/2]], [[1],[14]], [[0],[16]]]) := by decide +kernel
+
+/-- the example volume: clamped at the start, no knot more than `p + 1` times, in the w direction … -/
+example : fnOf (exVolQ.kv 2) 0 = fnOf (exVolQ.kv 2) (exVolQ.deg 2) ∧
+    ∀ y ∈ exVolQ.kv 2, (exVolQ.kv 2).count y ≤ exVolQ.deg 2 + 1 := by decide +kernel
+
+/-- … so the refinement of its w direction through the rows IS `refineDir` … -/
+example : refineVolRows exVolQ 2 1 (1/10000000) = refineDir exVolQ 2 1 (1/10000000) :=
+  refineVolRows_is_refineDir 3 exVolQ exVolQ_wf (by decide) 1 _ (by norm_num) 2 (by decide)
+    ⟨clampedEnd_of_drop _ _ (by decide) (by decide +kernel), by unfold SepBy; decide +kernel⟩
+    (by decide +kernel) (by decide +kernel)
+
+/-- … and a concrete run of the rows model (u direction: rows of 2·4 points) -/
+example : (refineVolRows exVolQ 0 1 (1/10000000)).map (fun T => (T.sizes, T.kv 0)) = some ([3, 2, 4], [0,0,1/2,1,1]) := by
+  decide +kernel
 
 end C05
